@@ -301,6 +301,17 @@ CLAIMED["C10"] = (
     COMMON_NOTE + "Callees without contracts are opaque (opt inline=off); call-site clauses may use the index of the enclosing range loop.",
     "contract-based deductive verification (call-site obligations on environment reads + SMT)", "6/C10")
 
+CLAIMED["C09"] = (
+    "The per-entry callback of the directory walk in PathHasher.hash is under contract (a function literal with a ghost set of the byte "
+    "strings it writes to the hash): proved that a regular file's contents are hashed (fileHash is called on exactly that entry) and that a "
+    "symlink leaves a marker; the two obligations the statement needs on top — the entry's relative name (its position) and a symlink's "
+    "target reach the hash — FAIL for every entry and are RECORDED KNOWN FINDINGS (region: any entry, canaries keep them honest; "
+    "demonstrated against the real code in findings/C09: renames, moves into subdirectories, retargeted links, empty directories and bytes "
+    "moved between adjacent files leave the hash unchanged). Kernel-only: single-file and top-level symlink hashing, memoisation and xattr "
+    "storage are not under contract; collision-freedom of the hash function itself is cryptography.",
+    COMMON_NOTE + "fs.WalkMode is an assumed iteration contract; fileHash (io.Copy into the hash) is opaque.",
+    "contract-based deductive verification (function literal under contract, ghost set of hashed strings, known-finding regions + SMT)", "6/C09")
+
 NOT_APPLICABLE = {
     "C05": "liveness / whole-run exit status under all schedules: no per-call contract expresses it (safety fragment is under C04)",
     "C30": "OS process groups, signals and wall-clock bounds; goroutines and select are outside the sequential contract model",
